@@ -357,6 +357,25 @@ Proof.
   apply IH. destruct (apply_op f o) as [f' ok] eqn:Ea. cbn [fst]. exact (SI_setlen f o f' ok HS Ho Ea).
 Qed.
 
+(** A [create_dir_all] that failed after creating some of the missing ancestors. *)
+Lemma path_prefix_prefixes : forall (a b : path) x, path_prefix a b = true -> In x (prefixes a) -> In x (prefixes b).
+Proof.
+  induction a as [|c a IH]; intros b x Hp Hin; [contradiction|]. destruct b as [|d b]; [discriminate|].
+  cbn [path_prefix] in Hp. apply andb_true_iff in Hp. destruct Hp as [H1 H2]. apply beq_eq in H1. subst d.
+  cbn [prefixes] in *. destruct Hin as [<-|Hin]; [now left|right].
+  apply in_map_iff in Hin. destruct Hin as (y & <- & Hy). apply in_map. now apply (IH b).
+Qed.
+
+Lemma SI_mkdir_prefix f e made f' ok : SI f -> nonpad e -> path_prefix made (parent (e_target e)) = true ->
+  apply_op f (MkdirAll made) = (f', ok) -> SI f'.
+Proof.
+  intros HS Hne Hp Ha. pose proof (apply_op_fresh f _ f' ok Ha) as Hfr.
+  apply (SI_transfer f f' HS Hfr).
+  - intros p. destruct (apply_op_lookup f _ f' ok p Ha) as [He|(Hn & Hi & Hd)]; [now left|right].
+    repeat split; auto. exists e. split; [exact Hne|]. now apply (path_prefix_prefixes made).
+  - intros j. destruct (apply_op_content f _ f' ok j Ha) as [He|[_ []]]. exact He.
+Qed.
+
 (** ** Every reachable state *)
 
 Lemma good_cut_of_good_write pc p off d n : good_op content pc (WriteAt p off d) -> good_cut content pc (WriteAt p off (firstn n d)).
@@ -366,7 +385,7 @@ Theorem sys_step_invariant s s' : sstep s s' -> SI (s_fs s) -> Forall pgood (s_p
   SI (s_fs s') /\ Forall pgood (s_pool s').
 Proof.
   intros Hst HS Hp. destruct Hst as [f pool i p off len k r Hn|f pool i p w k r Hn|f pool i o k f' Hn Ha|f pool i o k Hn
-                                    |f pool i p off d k n f' Hn Ha|f pool i id k Hn|f pool i id k Hn]; cbn [s_fs s_pool] in *;
+                                    |f pool i p off d k n f' Hn Ha|f pool i p k made f' Hn Hpre Ha|f pool i id k Hn|f pool i id k Hn]; cbn [s_fs s_pool] in *;
     destruct (Forall_nth_error _ _ _ _ Hp Hn) as (pc & Hwf & Hall & Hg); inversion Hg; subst.
   - split; [assumption|]. apply Forall_set_nth; [assumption|]. exists pc. auto.
   - split.
@@ -377,6 +396,11 @@ Proof.
     + apply (SI_step f (WriteAt p off (firstn n d)) f' true HS); [|exact Ha]. exists pc. repeat split; auto.
       right. now apply good_cut_of_good_write.
     + apply Forall_set_nth; [assumption|]. exists pc. repeat split; auto. constructor. discriminate.
+  - (* create_dir_all failed after creating some ancestors *)
+    match goal with Hop : good_op content pc (MkdirAll p) |- _ => destruct Hop as (sg & Hin & Hpad & Hq) end. subst p.
+    split.
+    + apply (SI_mkdir_prefix f (ps_entry sg) made f' true HS); auto. now apply (seg_nonpad pc).
+    + apply Forall_set_nth; [assumption|]. exists pc. auto.
   - split; [assumption|]. apply Forall_set_nth; [assumption|]. exists pc. auto.
   - split; [assumption|]. apply Forall_set_nth; [assumption|]. exists pc. auto.
 Qed.
@@ -399,13 +423,16 @@ Theorem sys_do_sound s i ev s' : sys_do s i ev = Some s' -> sstep s s'.
 Proof.
   destruct s as [f pool]. unfold sys_do. cbn [s_fs s_pool].
   destruct (nth_error pool i) as [pg|] eqn:En; [|discriminate].
-  destruct pg as [o|p w k|p off len k|o k|id k|id k]; destruct ev as [r| | |n|]; try discriminate.
+  destruct pg as [o|p w k|p off len k|o k|id k|id k]; destruct ev as [r| | |n| |made]; try discriminate.
   - intros Hh; inversion Hh; subst. now apply (ss_read f pool i p off len k r).
   - destruct (apply_op f o) as [f' [|]] eqn:Ea; [|discriminate]. intros Hh; inversion Hh; subst. now apply (ss_mut_ok f pool i o k f').
   - intros Hh; inversion Hh; subst. now apply (ss_mut_fail f pool i o k).
   - destruct o as [q|q c t|q m|q off d]; try discriminate.
     destruct (apply_op f (WriteAt q off (firstn n d))) as [f' [|]] eqn:Ea; [|discriminate].
     intros Hh; inversion Hh; subst. now apply (ss_cut f pool i q off d k n f').
+  - destruct o as [q|q c t|q m|q off d]; try discriminate. destruct (path_prefix made q) eqn:Ep; [|discriminate].
+    destruct (apply_op f (MkdirAll made)) as [f' [|]] eqn:Ea; [|discriminate].
+    intros Hh; inversion Hh; subst. now apply (ss_mkdir_partial f pool i q k made f').
   - intros Hh; inversion Hh; subst. now apply (ss_lock f pool i id k).
   - intros Hh; inversion Hh; subst. now apply (ss_unlock f pool i id k).
 Qed.
@@ -421,12 +448,14 @@ Theorem sys_event_sound s i e last s' : sys_event s i e last = Some s' -> sstep 
 Proof.
   unfold sys_event. destruct (nth_error (s_pool s) i) as [pg|]; [|discriminate].
   destruct pg as [o|p w k|p off len k|o k|id k|id k]; try discriminate.
-  - destruct e as [p' w' r|p' off' len' r|o' ok]; try discriminate.
+  - destruct e as [p' w' r|p' off' len' r|o' ok|p' made]; try discriminate.
     destruct (read_matches p off len p' off' r && read_consistent (s_fs s) p' off' r); [|discriminate]. apply sys_do_sound.
-  - destruct e as [p' w' r|p' off' len' r|o' ok]; try discriminate. destruct ok.
-    + destruct (op_eqb o o'); [apply sys_do_sound|]. destruct (last && op_prefix o' o); [|discriminate].
-      destruct o' as [q|q c t|q m|q off d]; try discriminate. apply sys_do_sound.
-    + destruct (op_same_target o o'); [apply sys_do_sound|discriminate].
+  - destruct e as [p' w' r|p' off' len' r|o' ok|p' made]; try discriminate.
+    + destruct ok.
+      * destruct (op_eqb o o'); [apply sys_do_sound|]. destruct (last && op_prefix o' o); [|discriminate].
+        destruct o' as [q|q c t|q m|q off d]; try discriminate. apply sys_do_sound.
+      * destruct (op_same_target o o'); [apply sys_do_sound|discriminate].
+    + destruct o as [q|q c t|q m|q off d]; try discriminate. destruct (path_eqb q p'); [apply sys_do_sound|discriminate].
 Qed.
 
 Theorem sys_skip_reach fuel : forall s i, sreach s (sys_skip fuel s i).
@@ -509,4 +538,66 @@ Proof.
       subst f'. now apply (ss_mut_fail f pool i o k).
   - now apply (ss_lock f pool i id k).
   - now apply (ss_unlock f pool i id k).
+Qed.
+
+(** ** Declared length (C12): an export image that has its declared length keeps it *)
+Lemma length_resize b k : length (resize b k) = k.
+Proof. unfold resize. rewrite app_length, firstn_length, repeat_length. lia. Qed.
+
+Lemma length_write_at b off d : length (write_at b off d) = Nat.max (length b) (off + length d).
+Proof.
+  unfold write_at, pad_to. rewrite !app_length, firstn_length, skipn_length, !app_length, repeat_length. lia.
+Qed.
+
+Theorem sized_step content es f0 f o f' ok e i :
+  table_functional content es -> SI content es f0 f -> sys_op content es o -> apply_op f o = (f', ok) ->
+  owner es f i e -> length (fs_content f i) = N.to_nat (e_len e) -> length (fs_content f' i) = N.to_nat (e_len e).
+Proof.
+  intros Hfun HS (pc & Hwf & Hall & Hg) Ha Ho Hlen.
+  destruct (apply_op_content f o f' ok i Ha) as [->|[Hl Hc]]; [exact Hlen|].
+  destruct o as [q|q c t|q n|q off d]; cbn [op_path] in *.
+  - contradiction.
+  - destruct Hc as [Ht _]. destruct Hg as [(Hf & _)|[]]. congruence.
+  - rewrite Hc, length_resize. destruct Hg as [(s & Hin & Hp & -> & ->)|[]].
+    pose proof (seg_nonpad es pc s Hall Hin Hp) as Hne.
+    destruct (si_alias _ _ _ _ HS (ps_entry s) e i (conj Hne Hl) Ho) as [_ Hle]. now rewrite Hle.
+  - rewrite Hc, length_write_at.
+    assert (Hd : exists s n, In s (w_segs pc) /\ e_pad (ps_entry s) = false /\ q = e_target (ps_entry s) /\ off = ps_off s /\ d = firstn n (seg_bytes content s)).
+    { destruct Hg as [(s & Hin & Hp & Hq & Hof & Hd)|(s & Hin & Hp & Hq & Hof & n & Hd)].
+      - exists s, (length (seg_bytes content s)). rewrite firstn_all. auto.
+      - exists s, n. auto. }
+    destruct Hd as (s & n & Hin & Hp & -> & -> & ->).
+    pose proof (seg_nonpad es pc s Hall Hin Hp) as Hne.
+    destruct (write_data_ok content pc s n Hwf Hin) as [Hb _].
+    destruct (si_alias _ _ _ _ HS (ps_entry s) e i (conj Hne Hl) Ho) as [_ Hle]. rewrite Hle in Hb. lia.
+Qed.
+
+Lemma owner_step es f o f' ok i e : apply_op f o = (f', ok) -> owner es f i e -> owner es f' i e.
+Proof.
+  intros Ha [Hn Hl]. split; [exact Hn|]. destruct (apply_op_lookup f o f' ok (e_target e) Ha) as [He|[Hnone _]]; congruence.
+Qed.
+
+(** In every continuation of a run: an export image that has the declared length keeps it (every
+    [set_len] sets the declared length, every write stays inside it, nothing truncates). *)
+Theorem sized_stable content es f0 s s' e i :
+  table_functional content es -> sreach s s' -> SI content es f0 (s_fs s) -> Forall (pgood content es) (s_pool s) ->
+  owner es (s_fs s) i e -> length (fs_content (s_fs s) i) = N.to_nat (e_len e) ->
+  owner es (s_fs s') i e /\ length (fs_content (s_fs s') i) = N.to_nat (e_len e).
+Proof.
+  intros Hfun Hr. induction Hr as [s|s s1 s2 Hst _ IH]; intros HS Hp Ho Hlen; [auto|].
+  destruct (sys_step_invariant content es f0 Hfun s s1 Hst HS Hp) as [HS1 Hp1].
+  apply IH; auto.
+  - destruct Hst as [f pool k p off len kk r Hn|f pool k p w kk r Hn|f pool k o kk f' Hn Ha|f pool k o kk Hn
+                    |f pool k p off d kk n f' Hn Ha|f pool k p kk made f' Hn Hpre Ha|f pool k id kk Hn|f pool k id kk Hn]; cbn [s_fs] in *; auto.
+    + eapply owner_step; eauto.
+    + eapply owner_step; eauto.
+    + eapply owner_step; eauto.
+  - destruct Hst as [f pool k p off len kk r Hn|f pool k p w kk r Hn|f pool k o kk f' Hn Ha|f pool k o kk Hn
+                    |f pool k p off d kk n f' Hn Ha|f pool k p kk made f' Hn Hpre Ha|f pool k id kk Hn|f pool k id kk Hn]; cbn [s_fs s_pool] in *; auto.
+    + destruct (Forall_nth_error _ _ _ _ Hp Hn) as (pc & Hwf & Hall & Hg). inversion Hg; subst.
+      apply (sized_step content es f0 f o f' true e i Hfun HS); auto. exists pc. auto.
+    + destruct (Forall_nth_error _ _ _ _ Hp Hn) as (pc & Hwf & Hall & Hg). inversion Hg; subst.
+      apply (sized_step content es f0 f (WriteAt p off (firstn n d)) f' true e i Hfun HS); auto. exists pc. repeat split; auto.
+      right. now apply good_cut_of_good_write.
+    + destruct (apply_op_content f (MkdirAll made) f' true i Ha) as [->|[_ []]]. exact Hlen.
 Qed.
